@@ -60,7 +60,8 @@ def role_by_method(facts, config):
 
 
 def run(ctx):
-    configs = ["A"] if ctx.tier == "quick" else ["A", "B", "C"]
+    # QUILL_X86ARCH compiles extra code into the queue (cache-line flushes, prefetch): config C is part of the quick tier too
+    configs = ["A", "C"] if ctx.tier == "quick" else ["A", "B", "C"]
     for cfg in configs:
         facts = ctx.facts("core.cpp", cfg)
         classes = [c for c in facts.cls_all(CLS, cfg)]
